@@ -159,6 +159,20 @@ DIRECTED = [
 ]
 
 
+def _closing_then_more():
+    """look-ahead 1; a closing request and, in the next read (recv_bytes = its length), two more requests: the I/O
+    thread is inside received() with them while the worker has not yet executed the closing one"""
+    from vf.sim import scenario as SC
+
+    first = {"n": 600, "k": "cl", "close": True}
+    n0 = len(b"".join(SC.request_bytes(0, 0, first)))
+    return {"adj": {"threads": 1, "channel_request_lookahead": 1, "asyncore_use_poll": False, "send_bytes": 1, "recv_bytes": n0}, "sndbuf": 4096,
+            "conns": [{"requests": [first, {"n": 10, "k": "cl"}, {"n": 20, "k": "cl"}], "sndbuf": 4096}]}
+
+
+DIRECTED.insert(2, _closing_then_more())
+
+
 def plan(tier, seed):
     specs = []
     nshards = 32 if tier == "quick" else 96
@@ -166,12 +180,12 @@ def plan(tier, seed):
     for i in range(nshards):
         specs.append({"mode": "random", "seed": seed * 1009 + i, "n": per})
     # systematic single pre-emption: directed scenarios always, generated ones in addition
-    nenum = 4 if tier == "quick" else 40
+    nenum = 5 if tier == "quick" else 40
     parts = 16 if tier == "quick" else 8
     for s in range(min(nenum, len(DIRECTED))):
         for p in range(parts):
             specs.append({"mode": "enum", "scn": DIRECTED[s], "part": p, "parts": parts, "cap": 900 if tier == "quick" else None})
-    for s in ([0] if tier == "quick" else [0, 1, 3]):
+    for s in ([0] if tier == "quick" else [0, 1, 4]):
         for p in range(8):
             specs.append({"mode": "enum2", "scn": DIRECTED[s], "part": p, "parts": 8, "window": 25 if tier == "quick" else 80})
     for i in range(2 if tier == "quick" else 16):
@@ -486,7 +500,8 @@ def run_shard(spec):
         # request off the queue and leaving service()), to whichever thread
         focus = set()
         for e in o.pilot:
-            if isinstance(e[2], tuple) and e[2][0] in ("service", "send_continue"):
+            # ... and of the I/O thread inside received() (between its tests of the channel's state and its lock)
+            if isinstance(e[2], tuple) and e[2][0] in ("service", "send_continue", "received"):
                 focus.update((e[0], t) for t in e[1])
         runner.finish(o)
         if spec.get("cap") and len(points) > spec["cap"]:
